@@ -287,6 +287,8 @@ static int ex_search(char **pat)
 	return row >= 0 && row < lbuf_len(xb) ? row : -1;
 }
 
+#define EX_NOLINE	(-(1 << 30))	/* an address that names no line */
+
 static int ex_lineno(char **num)
 {
 	int n = xrow;
@@ -300,12 +302,13 @@ static int ex_lineno(char **num)
 		break;
 	case '\'':
 		if (lbuf_jump(xb, (unsigned char) *++(*num), &n, NULL))
-			return -1;
+			return EX_NOLINE;
 		++*num;
 		break;
 	case '/':
 	case '?':
-		n = ex_search(num);
+		if ((n = ex_search(num)) < 0)
+			return EX_NOLINE;
 		break;
 	default:
 		if (isdigit((unsigned char) **num)) {
